@@ -68,6 +68,14 @@ func (ex *Exec) vcall(name string, fn *ssa.Function, args []Val, caller *frame) 
 			return mkInt(64, uint64(int64(x)))
 		}
 		return args[1]
+	case "ParamBytes":
+		n := ex.mustStr(args[0], "v.ParamBytes name")
+		b := ex.run.PBytes[n]
+		out := make([]Val, len(b))
+		for i, c := range b {
+			out[i] = mkInt(8, uint64(c))
+		}
+		return out
 	case "Concrete":
 		return mkInt(64, ex.choose(args[0].(Int)))
 	case "ConcreteBytes":
